@@ -248,7 +248,7 @@ func genReq(t *rapid.T, c Case) Req {
 	var ps []pv
 	if c.Server == "chunk" {
 		u := chunkUniverse(c.Seed)
-		key := rapid.SampledFrom([]string{"P", "P", "R", "Q", "Q", "V", "N", "N", "O", "E", "Z"}).Draw(t, "target")
+		key := rapid.SampledFrom([]string{"P", "P", "R", "Q", "Q", "V", "N", "N", "O", "E", "Z", "X", "X"}).Draw(t, "target")
 		other := "P"
 		if key == "P" {
 			other = "R"
@@ -332,6 +332,9 @@ func genCase(t *rapid.T) Case {
 		}
 		c.StoreSkipVerify = rapid.IntRange(0, 2).Draw(t, "storeskipverify") > 0 // the CLI default is true
 		c.Wire = rapid.SampledFrom([]string{"plain", "plain", "cli"}).Draw(t, "wire")
+		if rapid.IntRange(0, 3).Draw(t, "digest") == 3 {
+			c.Digest = "sha256"
+		}
 	} else {
 		c.Wire = "plain"
 	}
@@ -339,6 +342,7 @@ func genCase(t *rapid.T) Case {
 		c.Auth = rapid.SampledFrom(authValues).Draw(t, "auth")
 	}
 	c.Seed = uint64(rapid.IntRange(0, 15).Draw(t, "seed")) // 16 universes: worlds are cached per seed
+	defer setDigest(c.Digest)()                            // chunk IDs in the generated paths are those of the configured digest
 	n := rapid.IntRange(1, 6).Draw(t, "nreq")
 	for i := 0; i < n; i++ {
 		c.Reqs = append(c.Reqs, genReq(t, c))
